@@ -6,21 +6,21 @@ ids = [f"C{i:02d}" for i in range(1, 21)]
 files = {
  'C01': 'Model/Framing, Spec/Framing (+ RichError prost model for the instantiated theorem)',
  'C02': 'Model/Call (composition of Framing, Status, Metadata), Spec/Call',
- 'C03': 'Model/Framing, Model/Interceptor (prepare_request, into_http), Spec/Framing',
- 'C04': 'Model/Status, Basic/{Percent,Utf8,HMap,Base64}, Spec/Status',
+ 'C03': 'Model/Framing, Model/Interceptor (prepare_request, into_http), Model/RecoverError, Spec/Framing, Spec/GrpcResponse',
+ 'C04': 'Model/Status, Model/Framing (+FramingAsFound), Basic/{Percent,Utf8,HMap,Base64}, Spec/Status',
  'C05': 'Model/Compression, Spec/Compression',
  'C06': 'Model/Framing, Spec/Framing',
  'C07': 'Model/Framing, Spec/Framing (batch reference decoder)',
- 'C08': 'Model/Metadata, Basic/HMap, Spec/Metadata',
+ 'C08': 'Model/Metadata, Model/MetadataEntry, Model/MetadataApi, Basic/{HMap,MetaOps}, Spec/Metadata, Spec/MetadataEntry',
  'C09': 'Model/Timeout, Spec/Timeout',
  'C10': 'Model/Router, Spec/Router',
  'C11': 'Model/Codegen, Spec/Codegen',
  'C12': 'Model/Interceptor, Basic/HMapLite, Spec/Interceptor',
  'C13': 'Model/Shutdown, Spec/Shutdown',
- 'C14': 'Model/Reconnect, Basic/ConnScript, Spec/Reconnect',
+ 'C14': 'Model/Reconnect, Basic/{ConnScript,ErrChain}, Spec/Reconnect',
  'C15': 'Model/Tls, Basic/{TlsVocab,TlsTestPki}, Spec/Tls',
  'C16': 'Model/WebServer, Basic/TrailerMap, Spec/GrpcWeb',
- 'C17': 'Model/WebClient, Spec/GrpcWeb',
+ 'C17': 'Model/WebClient, Model/WebCaller, Spec/GrpcWeb',
  'C18': 'Model/Health, Basic/{HealthTypes,HealthLin}, Spec/Health',
  'C19': 'Model/Reflection(+Wire), Basic/ReflDescriptor, Spec/Reflection(+Wire)',
  'C20': 'Model/RichError, Basic/{PbWire,RichErrorTypes,Utf8Rust}, Spec/RichError',
@@ -28,24 +28,24 @@ files = {
 ties = {
  'C01': 'framing.rs/c01.rs: enc, dec, penc, pdec (ProstCodec), >32 KiB messages; thorough: every chunking of short streams',
  'C02': 'c02.rs: real client::Grpc ↔ real server::Grpc, all four shapes (+ mismatched), re-chunking bodies both ways, callz (compression on), malformed; thorough: h2 / h2x over real hyper on fragmenting duplex',
- 'C03': 'c03.rs: enc (+errors, limits), resp (real server::Grpc), req (real client::Grpc); thorough: every schedule ≤ 5',
- 'C04': 'c04.rs: code, codei, enc, dec, rt, rth, infer (all HTTP statuses), h2 (all reasons), toh2, u8 — tables exhaustive',
+ 'C03': 'c03.rs: enc (+errors, limits), resp (real server::Grpc), req (real client::Grpc); c03_prod.rs: prod rec/fb/icpt/srv (every producer of responses: RecoverError, Routes fallback, generated default arm, interceptor rejection, real transport::Server read by a raw h2 client); thorough: every schedule ≤ 5',
+ 'C04': 'c04.rs: code, codei, enc, dec, rt, rth, infer / inferb (all HTTP statuses, bodies with DATA), h2 (all reasons), rst (real Channel against an h2 server resetting with every reason), toh2, u8 — tables exhaustive; statuses up to 1 MiB',
  'C05': 'c05.rs: srv.*, cli.*, pair.* (real client against real server, 4×16×16×16 matrix), zero-length flagged frames',
  'C06': 'c06.rs: enc/dec around limits, declared lengths to 2^32−1, allocation observer, lim.srv/lim.cli (all four shapes, builder/apply/clone)',
  'C07': 'c07.rs: hostile dec (mutations, truncation at every byte, wrong length prefixes, body errors, mid-stream trailers); thorough: exhaustive small chunkings × special events',
- 'C08': 'c08.rs: bin, binw, bineq, ascv, key, acc, iter, ops, hmap, e2e (real client↔server)',
- 'C09': 'c09.rs: enc, parse (hook), run (GrpcTimeout under RecoverError, paused time), e2e (real Server::timeout / Endpoint::timeout over duplex)',
- 'C10': 'c10.rs + build.rs pool of 14 generated services: Routes/RoutesBuilder/transport::Server, wrappers, ~35 path mutations per method',
- 'C11': 'c11.rs: gen, manual, prost (syn-parsed output), e2e, regen (byte comparison of the 8 committed files)',
+ 'C08': 'c08.rs: bin, binw, bineq, ascv, key, acc, iter, ops, hmap, e2e (real client↔server); c08_entry.rs: eops (entry API operation sequences); c08_api.rs: kctor, vctor, veq, ferr (Status::from_error chains, RecoverError)',
+ 'C09': 'c09.rs: enc, encs, parse (hook), run (GrpcTimeout under RecoverError, paused time; raw header values), e2e, cli (silent / stalling / Routes peers that enforce nothing), srv (bare h2 client), seq (repeated set_timeout, builder orders)',
+ 'C10': 'c10.rs + build.rs pool of 17 generated services: call, plan (every construction of the router: 14 starts × op sequences, Routes oneshot and real transport server), rewriting interceptors, ~35 path mutations per method',
+ 'C11': 'c11.rs: gen, manual, prost (syn-parsed output; message kinds × compile_well_known_types × proto_path × extern), srv (compiled generated servers driven directly), e2e, regen (byte comparison of the 8 committed files)',
  'C12': 'c12.rs: line, status, ops, pairs, accept, reject, seq, ready, odd, routed, client',
  'C13': 'c13.rs: real Server over duplex, paused time, scripts of offers/calls/phases/signal/age, racy variants',
- 'C14': 'c14.rs: unit (hooked Reconnect), sess (tower Buffer), e2e/e2n (Endpoint + scripted connector + real servers)',
+ 'C14': 'c14.rs: unit (hooked Reconnect), sess (tower Buffer), e2e/e2n/e2d/e2x (Endpoint + scripted connector + real servers; deadlines, in-flight death, concurrent pairs, limit layers, failure causes), cls (Status::from_error on error chains), net (Endpoint::connect / connect_lazy over loopback TCP and UDS)',
  'C15': 'c15.rs: tls (486-matrix on TCP and duplex, second realisations, unusable CA bundles, random builder sequences, multi-client), srvcfg',
- 'C16': 'c16.rs: resp, req, kind (12 methods × 5 versions × 16 content-types × 9 accepts)',
- 'C17': 'c17.rs: cl, creq (every truncation, every chunking of small bodies)',
- 'C18': 'c18.rs: seq (exhaustive to length 6/8), conc incl. first-registration races (8-worker runtime + linearizability search in Lean)',
+ 'C16': 'c16.rs: resp, req, call (whole request seen by the inner service and whole response; 12 methods × 5 versions × 16 content-types × 9 accepts); chunks to 100 000 B, trailer blocks > 64 KiB',
+ 'C17': 'c17.rs: cl, creq (every truncation, every chunking of small bodies), st (real client::Grpc over the client layer); executor with waker discipline',
+ 'C18': 'c18.rs: seq (exhaustive to length 6/8), park (tasks parked in stream.message().await, woken by set/clear), conc incl. first-registration races (8-worker runtime + linearizability search in Lean)',
  'C19': 'c19.rs: builder configs × registrations (decoded/encoded/bad) × request streams on v1 and v1alpha',
- 'C20': 'c20.rs: vec, set, raw (hand-built hostile protobuf)',
+ 'C20': 'c20.rs: vec, set (set_*/add_*/with_* constructors), raw (hand-built hostile protobuf)',
 }
 rows = ["| prop | model / spec files | property theorems | tie (harness module; case kinds) |", "|---|---|---|---|"]
 total = 0
